@@ -1,3 +1,4 @@
+import SignaloModel.Proofs.BridgeMedianAcc
 import SignaloModel.Proofs.MedianRef7
 import SignaloModel.Proofs.MedianAccL
 import SignaloModel.Proofs.BridgeMedian
